@@ -17,7 +17,11 @@ BITS = 160
 
 
 def big_int(bits: int = BITS):
-    return st.integers(0, (1 << bits) - 1)
+    """Strategy for a uniformly distributed integer of `bits` bits.  It is drawn as a byte
+    string: ``st.integers`` with a huge range is deliberately biased towards small bit
+    lengths by Hypothesis (most draws < 2**32), which would leave the later digits zero."""
+    nbytes = (bits + 7) // 8
+    return st.binary(min_size=nbytes, max_size=nbytes).map(lambda b: int.from_bytes(b, "little"))
 
 
 class Digits:
